@@ -250,14 +250,36 @@ def unrepresentable_int_bound_region(mech, cfg, out):
     return False
 
 
+import collections
+INFO = collections.Counter()
+
+
+def narrow_int_domain(cfg):
+    """Python-int bounds closer together than one double spacing at their magnitude: the reflections of LaplaceFolded (double
+    arithmetic) can never land inside"""
+    lo, hi = cfg["lower"], cfg["upper"]
+    return isinstance(lo, int) and isinstance(hi, int) and lo < hi and (hi - lo) < float(np.spacing(float(max(abs(lo), abs(hi)))))
+
+
 def direct_one(mech, cfg, value, rngspec):
+    if mech == "LaplaceFolded" and narrow_int_domain(cfg):
+        if HANGS.get("LaplaceFolded:narrow", 0) >= 2 and not cfg.get("witness"):
+            return None, None                # the region is known to hang: two observations per run are enough
     v, out = _direct_one(mech, cfg, value, rngspec)
+    if v and v[0] == "C12:fold:hang" and mech == "LaplaceFolded" and narrow_int_domain(cfg):
+        HANGS["LaplaceFolded:narrow"] = HANGS.get("LaplaceFolded:narrow", 0) + 1
+        HANGS[mech] = max(0, HANGS.get(mech, 0) - 1)        # does not count against the mechanism's general hang budget
     if v and v[0].split(":")[-1] in ("out-of-range", "above-upper", "below-lower", "degenerate") and \
             unrepresentable_int_bound_region(mech, cfg, out):
         return ("C12:laplace-family:int-bound-not-a-double:off-by-rounding", v[1]), out
     if v and mech == "GeometricFolded" and v[0].endswith(":raises") and "rint" in v[1] and \
             any(isinstance(b, int) and abs(2 * b) >= 2 ** 63 for b in (cfg["lower"], cfg["upper"])):
-        return ("C12:geometric-folded:bounds-beyond-int64:raises", v[1]), out
+        # _check_bounds (constructor, and again at randomise) refuses Python-int bounds with |2*bound| >= 2^63 with a TypeError:
+        # a loud refusal of the configuration, not a C12 violation
+        INFO["refused_configuration:GeometricFolded:int-bounds-beyond-int64"] += 1
+        return None, None
+    if v and mech == "LaplaceFolded" and v[0] == "C12:fold:hang" and narrow_int_domain(cfg):
+        return ("C12:LaplaceFolded:int-domain-without-doubles:hang", v[1]), out
     return v, out
 
 
@@ -272,7 +294,7 @@ def _direct_one(mech, cfg, value, rngspec):
         m = build(mech, cfg, make_rng(rngspec))
         holder["m"] = m
         return m.randomise(typed_num(value, (cfg.get("np_types") or {}).get("value")))
-    kind, out = run_timed(call)
+    kind, out = run_timed(call, 2.0 if (mech == "LaplaceFolded" and narrow_int_domain(cfg)) else TIMEOUT)
     desc = (f"[numpy-scalar arguments {cfg['np_types']}] " if cfg.get("np_types") else "") + f"{mech}(epsilon={cfg['eps']!r}, delta={cfg.get('delta', 0.0)!r}, sensitivity={cfg['sens']!r}, lower={lo!r}, " \
            f"upper={hi!r}, rng={rngspec if 'seed' in rngspec else 'scripted'}).randomise({value!r})"
     p = sig_prefix(mech)
@@ -934,6 +956,9 @@ def gen_magnitude(r):
         sp = int(np.spacing(float(2 * Bm)))
         width = r.choice([64 * sp + 1, 1000 * sp + 3, Bm - 1, Bm + 5, 2 ** 53 - 1])
     hi = lo + width
+    if mech == "LaplaceFolded" and r.chance(0.08):
+        lo = sgn * r.choice([2 ** 63, 2 ** 64, 2 ** 70]) + r.randint(0, 5)
+        hi = lo + r.choice([1001, 10, 1])        # closer together than one double spacing (open finding: never returns)
     m = r.u01()
     if mech != "Snapping":
         if m < 0.15:
@@ -1031,6 +1056,9 @@ def s_bounded(ctx):
             key = (mech, cfg.get("dk"), inside, cfg["sens"] == 0, cfg["eps"] == INF, f2b(float(out)))
         ctx.case(key)
         ctx.count("direct:" + mech)
+    for k_, n_ in INFO.items():
+        ctx.count(k_, n_)
+    INFO.clear()
     ctx.sample({"direct_case": {"mech": cases[20][0], "cfg": cases[20][1], "value": cases[20][2], "rng": cases[20][3]}})
 
 
@@ -1492,10 +1520,10 @@ WHAT.update({
         "Snapping(epsilon=1, sensitivity=1, lower=-8e307, upper=8e307, random_state=0).randomise(0.5) returns nan (also (-4e307, 4e307) and "
         "(0, 1.7e308); (-1e307, 1e307) returns finite values): effective_epsilon() is 0 for such a bound, scale = 1/0 and `value % lambda_` "
         "is invalid",
-    "C12:geometric-folded:bounds-beyond-int64:raises":
-        "GeometricFolded(epsilon=1, lower=2**63+1, upper=2**63+9, random_state=0).randomise(2**63+5) raises TypeError (np.round / np.isclose "
-        "on a Python int beyond int64 in _check_bounds: 'int has no callable rint method') for integer bounds with |2*bound| >= 2**63; "
-        "GeometricTruncated accepts the same bounds",
+    "C12:LaplaceFolded:int-domain-without-doubles:hang":
+        "LaplaceFolded(epsilon=5, sensitivity=1, lower=2**63, upper=2**63+1001, random_state=0).randomise(2**53+3) never returns (2 s "
+        "observed): the Python-int bounds are closer together than one double spacing (2048 at 2**63), the reflections are computed in "
+        "doubles and never land inside the domain",
     "C12:laplace-family:int-bound-not-a-double:off-by-rounding":
         "LaplaceTruncated(epsilon=1, sensitivity=0, lower=2**53, upper=2**54-1).randomise(float(2**54)) returns 18014398509481984.0 > upper: "
         "`value > self.upper` compares a numpy double with a Python int after rounding the int to a double; likewise "
@@ -1506,8 +1534,9 @@ WHAT.update({
 W_DIRECT = {
     "C12:Snapping:huge-finite-width:nan":
         ("Snapping", {"eps": 1.0, "sens": 1.0, "lower": -8e307, "upper": 8e307, "dk": "astronomic"}, 0.5, {"seed": 0}),
-    "C12:geometric-folded:bounds-beyond-int64:raises":
-        ("GeometricFolded", {"eps": 1.0, "sens": 1, "lower": 2 ** 63 + 1, "upper": 2 ** 63 + 9, "dk": "magnitude"}, 2 ** 63 + 5, {"seed": 0}),
+    "C12:LaplaceFolded:int-domain-without-doubles:hang":
+        ("LaplaceFolded", {"witness": True, "eps": 5.0, "delta": 0.0, "sens": 1.0, "lower": 2 ** 63, "upper": 2 ** 63 + 1001, "dk": "magnitude"},
+         2 ** 53 + 3, {"seed": 0}),
     "C12:laplace-family:int-bound-not-a-double:off-by-rounding":
         ("LaplaceTruncated", {"eps": 1.0, "delta": 0.0, "sens": 0.0, "lower": 2 ** 53, "upper": 2 ** 54 - 1, "dk": "magnitude"}, float(2 ** 54), {"seed": 0}),
 }
